@@ -33,7 +33,7 @@ def run(ctx, res):
     # framing rules are imported only as far as the residue entries rely on them (and S-closed / A-err for the dead
     # unreachable!() arm); clauses that belong to C03/C05 alone do not alarm here
     import engine
-    fr = engine.Filtered(res, {"A-shape", "A-ext", "A-out", "A-err", "S-closed", "S-ok", "S-inc", "S-end", "S-shape", "I-iter", "N-pres", "A-len"})
+    fr = engine.Filtered(res, {"A-shape", "A-ext", "A-out", "S-closed", "S-ok", "S-inc", "S-end", "S-shape", "I-iter", "N-pres", "A-len"})
     m = framing.rules_new(prog, fr)
     if m.ok and len(m.oks) == 1:
         framing.rule_n_pres(prog, fr, m)
@@ -41,7 +41,7 @@ def run(ctx, res):
     framing.rules_iter(prog, fr)
     panics.rule_acyclic(prog, res, cl, "DEC")
     panics.rule_no_interior_mutability(prog, res)
-    dec = dispatch.decode_table(prog, res, rule="E-map")
+    dec = dispatch.decode_table(prog, engine.Filtered(res, {"E-map"}, ("return-shape",)), rule="E-map")
     import fieldmodel, textrules
     fieldmodel.check_fields(prog, res, prop="C02")
     textrules.rule_utf8_writers(prog, res)
